@@ -50,6 +50,7 @@ type Contract struct {
 	Wraps    bool // arithmetic intended to wrap: no range obligations
 	ModGoHeap bool // `modifies goheap`: the Go heap is unconstrained, ghost components are framed
 	InvokesMany bool // `invokes* p`: p is called any number of times: only its frame applies, its postconditions are not assumed
+	Passes   []*Clause // `passes`: facts about the arguments (cb0, cb1, ...) the library hands to the function value it invokes
 	Invokes  string // `invokes p`: the (library) function calls its function-valued parameter p once, synchronously, with non-nil arguments
 	Trusted  bool
 	Refines  []string
@@ -113,7 +114,7 @@ type GhostDecl struct {
 	Args int
 }
 
-var clauseHead = regexp.MustCompile(`^(requires|ensures|assume|invariant|step|backstep|decreases|hint|exithint|rethint)\s*(\[[^\]]*\])?\s*([A-Za-z_][A-Za-z0-9_\-]*)\s*:\s*(.*)$`)
+var clauseHead = regexp.MustCompile(`^(requires|ensures|assume|passes|invariant|step|backstep|decreases|hint|exithint|rethint)\s*(\[[^\]]*\])?\s*([A-Za-z_][A-Za-z0-9_\-]*)\s*:\s*(.*)$`)
 
 func newSpecSet() *SpecSet {
 	return &SpecSet{Contracts: map[string]*Contract{}, Ghosts: map[string]*GhostDecl{}, Preds: map[string]*Pred{}}
@@ -476,6 +477,8 @@ func (ss *SpecSet) parseFile(path string, trusted bool, pkgName string) {
 				cur.Requires = append(cur.Requires, c)
 			case "ensures":
 				cur.Ensures = append(cur.Ensures, c)
+			case "passes":
+				cur.Passes = append(cur.Passes, c)
 			case "assume":
 				if loop > 0 {
 					ls := cur.Loops[loop]
